@@ -802,7 +802,7 @@ impl Add<HalfPel> for HalfPel {
     type Output = HalfPel;
 
     fn add(self, rhs: Self) -> Self {
-        HalfPel(self.0 + rhs.0)
+        HalfPel(self.0.saturating_add(rhs.0))
     }
 }
 
